@@ -291,6 +291,17 @@ def ext_corpus(rnd):
     h = G.touch_steps(rnd, "p2", ["a", "b", "c"], True, 60) + G.touch_steps(rnd, "p3", ["a", "b"], True, 70) \
         + G.touch_steps(rnd, "p4", ["a", "b"], True, 80)
     out.append(("wide-api-derivations-from-P-frames", p, p[:5] + h + p[5:], "given"))
+    # E4 -- other work constructs / configures "a session" with ANOTHER connection while P's session is live; P's rows are
+    #       compared across all actions (collect/count/show go through the cursor, toPandas through the connection)
+    pa = [{"o": P, "op": "mktable", "name": "tt"}, {"o": P, "op": "table", "dst": "p0", "view": "tt"},
+          {"o": P, "op": "where", "dst": "p1", "src": "p0", "col": C(None, "k"), "k": 1}, {"o": P, "op": "collect", "src": "p0"}]
+    pb = [{"o": P, "op": "collect", "src": "p1"}, {"o": P, "op": "count", "src": "p1"}, {"o": P, "op": "topandas", "src": "p1"},
+          {"o": P, "op": "toarrow", "src": "p1"}, {"o": P, "op": "show", "src": "p0"}, {"o": P, "op": "topandas", "src": "p0"},
+          {"o": P, "op": "create", "dst": "p2", "tbl": "T1"}, {"o": P, "op": "topandas", "src": "p2"}, {"o": P, "op": "collect", "src": "p2"}]
+    for how in ("ctor", "builder", "plain"):
+        h = [{"o": H, "op": "newsession", "how": how, "name": "tt"}, {"o": H, "op": "create", "dst": "h0", "tbl": "T2"},
+             {"o": H, "op": "collect", "src": "h0"}]
+        out.append(("other-work-opens-session-with-another-connection:" + how, pa + pb, pa + h + pb, "given"))
     return out
 
 
@@ -508,7 +519,7 @@ def _run(ctx: core.Ctx):
                     sig = "C18/stale-schema-cache:view-name-first-registered-by-history-with-other-columns"
                 else:
                     sig = "C18/history-changes-result:" + c["kind"].split(":")[0] + ":" + \
-                          ("model-agrees" if same_pred == "differs" else "model-disagrees")
+                          ("outside-the-model" if c.get("ext") else "model-agrees" if same_pred == "differs" else "model-disagrees")
                 ctx.deviation(sig, "P's observations differ between 'interleaved with other work in the same session' and "
                               "'alone in a fresh process'", desc)
                 if same_pred == "same" and not outside and not c.get("ext"):
